@@ -117,6 +117,13 @@ type World struct {
 	nodePoolCtrl  *informer.NodePoolController
 	// seen: keys delivered by the previous Sync, per kind (so that deletions are delivered too)
 	seen map[string]map[types.NamespacedName]bool
+
+	// quiet sections (see quiet)
+	quietDepth     int
+	parkedFaults   []*Fault
+	parkedMonitors []func(w *World, c *Call)
+	parkedAfter    []func(w *World, c *Call)
+	parkedCalls    int
 }
 
 // tracker assigns deterministic UIDs / names and takes creation and deletion timestamps from the fake clock.
@@ -462,17 +469,31 @@ func (w *World) Apply(objs ...client.Object) {
 	}
 }
 
+// quiet runs harness-side API access without logging, faults or monitors. It is re-entrant and safe when several
+// goroutines use it at once (Karpenter runs some steps in parallel, and monitors are invoked from those goroutines): the
+// hooks are parked when the first section opens and restored when the last one closes. API calls that controller
+// goroutines issue while a section is open are neither recorded nor faulted.
 func (w *World) quiet(fn func()) {
 	w.mu.Lock()
-	faults, monitors, after := w.Faults, w.Monitors, w.After
-	n := len(w.Calls)
-	w.Faults, w.Monitors, w.After = nil, nil, nil
+	if w.quietDepth == 0 {
+		w.parkedFaults, w.parkedMonitors, w.parkedAfter = w.Faults, w.Monitors, w.After
+		w.parkedCalls = len(w.Calls)
+		w.Faults, w.Monitors, w.After = nil, nil, nil
+	}
+	w.quietDepth++
 	w.mu.Unlock()
+	defer func() {
+		w.mu.Lock()
+		w.quietDepth--
+		if w.quietDepth == 0 {
+			w.Faults, w.Monitors, w.After = w.parkedFaults, w.parkedMonitors, w.parkedAfter
+			if w.parkedCalls <= len(w.Calls) {
+				w.Calls = w.Calls[:w.parkedCalls]
+			}
+		}
+		w.mu.Unlock()
+	}()
 	fn()
-	w.mu.Lock()
-	w.Faults, w.Monitors, w.After = faults, monitors, after
-	w.Calls = w.Calls[:n]
-	w.mu.Unlock()
 }
 
 func (w *World) applyOne(o client.Object) {
